@@ -202,3 +202,25 @@ void h_sexp_sub(void) {
   OBL(bn_canonical(r), "sexp_sub.canonical: fixnum iff it fits");
   DONE();
 }
+
+/* the real sexp_copy_bignum (memset + memmove) against the contract the other groups use */
+#ifndef LEN0
+#define LEN0 0
+#endif
+#ifndef DSTMODE
+#define DSTMODE 0      /* 0: NULL, 1: dst = b (LB words) */
+#endif
+void h_copy_bignum(void) {
+  SETUP_CTX(); SETUP_A(); SETUP_B();
+  uwide ma = bn_mag(a);
+  sexp dst = DSTMODE ? b : NULL;
+  sexp c = sexp_copy_bignum(ctx, dst, a, LEN0);
+  unsigned long len = LEN0 > 0 ? LEN0 : LA;
+  OBL(IS_BIG(c), "copy_bignum.result: a bignum");
+  OBL((DSTMODE && LB >= len) ? (c == b) : (c != a && c != b && sexp_bignum_length(c) == len), "copy_bignum.reuse: dst reused iff it is long enough, else a fresh object of len words");
+  OBL(sexp_bignum_sign(c) == in_sa, "copy_bignum.sign: sign copied");
+  uwide want = len >= LA ? ma : (ma & (((uwide)1 << (64 * len)) - 1));
+  OBL(bn_mag(c) == want, "copy_bignum.value: first min(length(a), len) words copied, the rest zero");
+  OBL(bn_mag(a) == ma, "copy_bignum.frame: source unchanged");
+  DONE();
+}
